@@ -103,6 +103,16 @@ func c12(r *Report) {
 
 	mb := p.Func(pePkg, "PresentationDefinition", "matchBasic")
 	r.Gate(Gate{ID: "C12.wallet.matchBasic.complete-or-error", Fn: mb, Effect: SuccessReturn(), Check: CmpCheck("len(descriptorsNotMatched) > 0 is false", token.LSS, IntV(0), LenV(AnyV()), false)})
+	// claims extraction evaluates each credential against the constraints of ITS input descriptor, looked up in this
+	// iteration: a lookup variable that survives the iteration hands an unknown id the previous descriptor's constraints
+	c12FreshConstraints(r)
+	// the credentials signed into the presentation are — same list, same order, nothing removed — the ones the submission's
+	// descriptor-map paths index: from the builder's sign instruction down to the VerifiableCredential member of the VP
+	const holderPkg = "vcr/holder"
+	r.ArgIs("C12.present.submission-list-is-presented", p.Func(holderPkg, "presenter", "buildSubmission"), Fn(holderPkg, "presenter", "buildPresentation"), 2, FieldV("SignInstruction", "VerifiableCredentials"), 1)
+	r.ArgIs("C12.present.list-handed-down-unchanged", p.Func(holderPkg, "presenter", "buildPresentation"), AnyOf(Fn(holderPkg, "presenter", "buildJWTPresentation"), Fn(holderPkg, "presenter", "buildJSONLDPresentation")), 2, ParamV("credentials"), 2)
+	r.FieldStoredIs("C12.present.jwt-carries-the-list", p.Func(holderPkg, "presenter", "buildJWTPresentation"), "VerifiablePresentation", "VerifiableCredential", ParamV("credentials"), 1)
+	r.FieldStoredIs("C12.present.jsonld-carries-the-list", p.Func(holderPkg, "presenter", "buildJSONLDPresentation"), "VerifiablePresentation", "VerifiableCredential", ParamV("credentials"), 1)
 	appendCallee := Callee{Desc: "append", M: func(cc *ssa.CallCommon) bool { b, ok := cc.Value.(*ssa.Builtin); return ok && b.Name() == "append" }}
 	r.MustReach(MustReach{ID: "C12.wallet.matchBasic.unmatched-recorded", Fn: mb, Cond: CmpCheck("candidate.VC == nil", token.EQL, FieldV("Candidate", "VC"), NilV(), true), Target: appendCallee})
 	bd := p.Func(pePkg, "PresentationSubmissionBuilder", "Build")
@@ -115,6 +125,8 @@ func c12(r *Report) {
 	r.Gate(Gate{ID: "C12.wallet.requirements.groups-available", Fn: msr, Effect: SuccessReturn(), ForEach: true, Check: MapOK("")})
 	c12Pairing(r, mb, false)
 	c12Pairing(r, msr, true)
+	c12WalletOrder(r, mb, msr)
+	c12WholeValueWithoutCapture(r)
 	c12Apply(r)
 	srm := p.Func(pePkg, "SubmissionRequirement", "match")
 	okRet := AnyEffect(CallEffect(Fn(pePkg, "SubmissionRequirement", "from")), CallEffect(Fn(pePkg, "SubmissionRequirement", "fromNested")))
@@ -542,6 +554,57 @@ func c12Pairing(r *Report, fn *ssa.Function, viaEqual bool) {
 			okCounter = false
 		}
 	}
+	// third form: the path index is the range index of the loop, and the same block appends the same candidate's credential to
+	// the returned slice — both slices start empty before the loop and grow by one per iteration, so position k of one is
+	// position k of the other
+	rangeIdxForm := false
+	if bin, isBin := idx.(*ssa.BinOp); isBin && bin.Op == token.ADD {
+		if phi, isPhi := bin.X.(*ssa.Phi); isPhi {
+			one, isOne := ConstInt(bin.Y)
+			startsBefore := false
+			for _, e := range phi.Edges {
+				if c, isC := ConstInt(e); isC && c == -1 {
+					startsBefore = true
+				}
+			}
+			if isOne && one == 1 && startsBefore {
+				var vcApp *ssa.Call
+				for _, in := range blk.Instrs {
+					if c, ok := in.(*ssa.Call); ok {
+						if b, ok := c.Call.Value.(*ssa.Builtin); ok && b.Name() == "append" && strings.Contains(c.Type().String(), "VerifiableCredential") {
+							vcApp = c
+						}
+					}
+				}
+				emptyStart := func(c *ssa.Call) bool {
+					ph, ok := StripConv(c.Call.Args[0]).(*ssa.Phi)
+					if !ok {
+						return false
+					}
+					for _, e := range ph.Edges {
+						if IsNilConst(e) {
+							return true
+						}
+					}
+					return false
+				}
+				if vcApp != nil && emptyStart(vcApp) && emptyStart(app) {
+					idRoot := storedFieldRoot(blk, "InputDescriptorMappingObject", "Id")
+					for _, in := range blk.Instrs {
+						if st, isSt := in.(*ssa.Store); isSt && idRoot != nil && rootAlloc(st.Val, 0) == idRoot && strings.Contains(AccessPath(st.Val, 0), "VC") {
+							if _, isIA := st.Addr.(*ssa.IndexAddr); isIA {
+								rangeIdxForm = true
+							}
+						}
+					}
+				}
+			}
+		}
+	}
+	if rangeIdxForm {
+		r.OK(key, rule, r.P.Pos(sp.Pos()), "path index is the range index; the block appends the mapping and the same candidate's credential, both slices start empty", true)
+		return
+	}
 	if !okCounter {
 		r.Bad(key, rule, r.P.Pos(sp.Pos()), "the path index "+AccessPath(idx, 0)+" is not a counter that starts at 0 and advances by one in the block that appends the mapping")
 		return
@@ -740,4 +803,126 @@ func c12MatchedValue(r *Report, fn *ssa.Function) {
 		return
 	}
 	r.OK(key, rule, r.P.Pos(call.Pos()), fmt.Sprintf("%d return(s)", n), true)
+}
+
+func c12FreshConstraints(r *Report) {
+	p := r.P
+	rule := "ARG: the constraints handed to matchConstraint in ResolveConstraintsFields were looked up in the current iteration over the credential map (not carried over from an earlier iteration)"
+	fn := p.Func("vcr/pe", "PresentationDefinition", "ResolveConstraintsFields")
+	if fn == nil {
+		r.Lost("C12.claims.constraints-of-this-descriptor", rule, "function not found")
+		return
+	}
+	key := "C12.claims.constraints-of-this-descriptor @ " + p.FuncName(fn)
+	calls := p.CallsNear(fn, Fn("vcr/pe", "", "matchConstraint"))
+	r.Sites += len(calls)
+	if len(calls) == 0 {
+		r.Lost(key, rule, "no matchConstraint call")
+		return
+	}
+	for _, c := range calls {
+		if carried, why := LoopCarried(CallArg(c.Common(), 0), c.Block()); carried {
+			r.Bad(key, rule, p.Pos(c.Pos()), "argument 0 ("+AccessPath(CallArg(c.Common(), 0), 0)+") can be left over from an earlier iteration: "+why)
+			return
+		}
+	}
+	r.OK(key, rule, p.Pos(fn.Pos()), fmt.Sprintf("%d call(s)", len(calls)), true)
+}
+
+// c12WalletOrder: the selected candidates are put into wallet order (sortCandidatesByCredential) before the descriptor
+// paths are assigned — the first-match selection the verifier repeats is a fixed point only for that order (fix: the
+// verifier rejected the wallet's own correct submission, depending on the storage order of the wallet).
+func c12WalletOrder(r *Report, fns ...*ssa.Function) {
+	rule := "ORDER: sortCandidatesByCredential(selected) is called on every path before the descriptor-map paths ($.verifiableCredential[k]) are built"
+	for _, fn := range fns {
+		if fn == nil {
+			r.Lost("C12.wallet.selection-in-wallet-order", rule, "function not found")
+			continue
+		}
+		key := "C12.wallet.selection-in-wallet-order @ " + r.P.FuncName(fn)
+		sorts := Calls(fn, Fn(pePkg, "", "sortCandidatesByCredential"))
+		var paths []ssa.CallInstruction
+		for _, c := range Calls(fn, Fn("std:fmt", "", "Sprintf")) {
+			if s, ok := ConstString(c.Common().Args[0]); ok && strings.Contains(s, "verifiableCredential[") {
+				paths = append(paths, c)
+			}
+		}
+		r.Sites += len(sorts) + len(paths)
+		if len(paths) == 0 {
+			r.Lost(key, rule, "path construction not found")
+			continue
+		}
+		ok := len(sorts) > 0
+		for _, pth := range paths {
+			dominated := false
+			for _, s := range sorts {
+				if InstrDominates(s, pth) {
+					dominated = true
+				}
+			}
+			if !dominated {
+				ok = false
+			}
+		}
+		if !ok {
+			r.Bad(key, rule, r.P.Pos(paths[0].Pos()), "the paths are assigned without a dominating sortCandidatesByCredential call: the order of the returned credentials is not the wallet order")
+			continue
+		}
+		r.OK(key, rule, r.P.Pos(fn.Pos()), fmt.Sprintf("%d sort call(s) dominate %d path construction(s)", len(sorts), len(paths)), true)
+	}
+	// the sort key is the position in the matched list, recorded where the candidate's credential is chosen
+	mc := r.P.Func(pePkg, "PresentationDefinition", "matchConstraints")
+	r.FieldStoredIs("C12.wallet.candidate-index-is-wallet-position", mc, "Candidate", "vcIndex", VPat{Desc: "the range index over the wallet's credentials", M: func(v ssa.Value) bool {
+		bin, ok := v.(*ssa.BinOp)
+		if !ok || bin.Op != token.ADD {
+			return false
+		}
+		_, isPhi := bin.X.(*ssa.Phi)
+		one, isOne := ConstInt(bin.Y)
+		return isPhi && isOne && one == 1
+	}}, 1)
+}
+
+// c12WholeValueWithoutCapture: without a capture group the claim is the credential's whole string value, not the fragment the
+// (unanchored) expression consumed.
+func c12WholeValueWithoutCapture(r *Report) {
+	p := r.P
+	rule := "ARG: in matchFilter no value derived from Match.Capture is returned (without capture group the whole field value is the claim)"
+	key := "C12.claims.pattern-without-group-yields-whole-value"
+	var fn *ssa.Function
+	for _, f := range []*ssa.Function{p.Func(pePkg, "", "matchPattern"), p.Func(pePkg, "", "matchFilter")} {
+		if f != nil && len(Calls(f, Fn("github.com/dlclark/regexp2", "Regexp", "FindStringMatch"))) > 0 {
+			fn = f
+		}
+	}
+	if fn == nil {
+		r.Lost(key, rule, "the function that runs the pattern (FindStringMatch) was not found")
+		return
+	}
+	key += " @ " + p.FuncName(fn)
+	n := 0
+	for _, f := range WithAnons(fn) {
+		for _, ci := range Calls(f, AnyOf(Fn("github.com/dlclark/regexp2", "Capture", "Runes"), Fn("github.com/dlclark/regexp2", "Capture", "String"))) {
+			// the receiver is the Capture embedded (through Group) in the *Match itself — not one of match.Groups()[i]
+			v := CallArg(ci.Common(), -1)
+			for d := 0; d < 4; d++ {
+				fa, ok := v.(*ssa.FieldAddr)
+				if !ok {
+					break
+				}
+				v = fa.X
+			}
+			if pt, ok := v.Type().Underlying().(*types.Pointer); ok {
+				if nm, isN := pt.Elem().(*types.Named); isN && nm.Obj().Name() == "Match" {
+					n++
+				}
+			}
+		}
+	}
+	r.Sites++
+	if n > 0 {
+		r.Bad(key, rule, p.Pos(fn.Pos()), fmt.Sprintf("%d read(s) of the match-level Capture (the matched fragment): it must not become the claim value", n))
+		return
+	}
+	r.OK(key, rule, p.Pos(fn.Pos()), "no read of the match-level Capture", true)
 }
